@@ -29,7 +29,8 @@ THEOREMS = ["C14_static_text_roundtrip", "C14_static_text_no_binding_start", "C1
             "C14_legacy_static_text_becomes_binding", "C14_string_literal_roundtrip",
             "C14_printer_tables_ok", "C14_printer_paren_decision", "C14_text_piece_then_binding",
             "C14_static_text_roundtrip_real_scanner", "C14_expression_string_literal_roundtrip",
-            "C14_expression_print_parse_roundtrip", "C14_expression_roundtrip_any_tail", "C14_integer_literal_roundtrip"]
+            "C14_expression_print_parse_roundtrip", "C14_expression_roundtrip_any_tail", "C14_integer_literal_roundtrip",
+            "C14_binding_print_parse_roundtrip"]
 
 
 def _norm_nodes(nodes):
